@@ -14,7 +14,7 @@ func init() { props["C14"] = propC14 }
 // scanOrder checks that the Scan call in f binds &x[K] for K = 1..max-1 in ascending order after a fixed prefix.
 func scanOrder(c *Ctx, r *Report, rule string, f *ssa.Function, max int64) {
 	var scans []ssa.CallInstruction
-	for _, n := range []string{"database/sql.(*Row).Scan", "database/sql.(*Rows).Scan"} {
+	for _, n := range []string{"database/sql.Row.Scan", "database/sql.Rows.Scan"} {
 		scans = append(scans, findCalls(f, n)...)
 	}
 	if len(scans) == 0 {
@@ -61,6 +61,7 @@ func propC14(c *Ctx, r *Report) {
 	r.rule("C14/era-table", 3, "snapshot cadence and rate fallbacks")
 	e.evalRows(r, e.rowsC14(r))
 
+	ruleNoCarriedReads(c, newSharedAnalysis(c), r, "C14/no-carried-state", reachOf(c, "node.Pegnetd.SnapshotPayouts"), carriedAllowedSync, "the snapshot payout")
 	// legacy fallback (dead) — no-fault scenario with SelectPendingRates inlined
 	r.rule("C14/legacy-fallback", 2, "before 2.0.2 a snapshot block without rates falls back to the previous height's rates")
 	sb := c.fn("node.Pegnetd.SyncBlock")
@@ -72,7 +73,7 @@ func propC14(c *Ctx, r *Report) {
 			if !e.a.snapshot(h) {
 				continue
 			}
-			sc := &Scenario{Params: map[string]AVal{"height": hconst(h)}, Calls: map[string]AVal{"isDone": cBool(false)}, MaxDepth: 3, AllErrorsNil: true,
+			sc := &Scenario{Params: map[string]AVal{"type:uint32": hconst(h)}, Calls: map[string]AVal{"isDone": cBool(false)}, MaxDepth: 3, AllErrorsNil: true,
 				NoInline: map[string]bool{"multiFetch": true, "Grade": true, "GradeS": true, "SnapshotPayouts": true, "ApplyTransactionBatchesInHolding": true, "ApplyTransactionBlock": true, "ApplyFactoidBlock": true, "ApplyGradedOPRBlock": true, "ApplyGradedSPRBlock": true, "DevelopersPayouts": true, "InsertRates": true, "InsertGradeBlock": true, "SyncBank": true, "MintTokensForBalance": true, "NullifyMintedTokens": true, "GetAssetRates": true, "GetAssetRatesV0": true}}
 			t := newSCCP(c, sc).analyse(sb, nil)
 			r.Scen++
@@ -151,10 +152,10 @@ func propC14(c *Ctx, r *Report) {
 		}
 		return cs[0]
 	}
-	snapC := one("pegnet.(*Pegnet).SnapshotCurrent")
+	snapC := one("pegnet.Pegnet.SnapshotCurrent")
 	selC := one("pegnet.Pegnet.SelectSnapshotBalances")
-	addC := one("pegnet.(*Pegnet).AddToBalance")
-	histC := one("pegnet.(*Pegnet).InsertStakingCoinbase")
+	addC := one("pegnet.Pegnet.AddToBalance")
+	histC := one("pegnet.Pegnet.InsertStakingCoinbase")
 	ncsC := one("conversions.NewConversionSupply")
 	if snapC == nil || selC == nil || addC == nil || histC == nil || ncsC == nil {
 		return
@@ -225,23 +226,58 @@ func propC14(c *Ctx, r *Report) {
 		{"zero pUSD rate skips everything from 2.0.2", tick["XBT"], cUint(5), cUint(100), cUint(0), v202 + 144, false},
 		{"zero-rate asset still valued before 2.0.2 (Convert rejects it)", tick["XBT"], cUint(5), cUint(0), cUint(100), v202 - 100, true},
 	} {
-		sc := &Scenario{Params: map[string]AVal{"height": hconst(cs.h)}, Phis: map[string]AVal{"type:fat2.PTicker": cInt(cs.i)},
+		sc := &Scenario{Params: map[string]AVal{"type:uint32": hconst(cs.h)}, Phis: map[string]AVal{"type:fat2.PTicker": cInt(cs.i)},
 			Paths:   map[string]AVal{"pegnet.BalancesPair.Balances[]": cs.bal},
-			Lookups: map[string]AVal{"rates[]": cs.rate, fmt.Sprintf("rates[%d]", tick["USD"]): cs.usd},
 			MaxDepth: 0, AllErrorsNil: true}
+		// the rates parameter: every entry cs.rate, pUSD cs.usd (a container value, so it follows the map into helpers)
+		sc.Params["type:map[fat2.PTicker]uint64"] = containerOf(cs.rate, map[string]AVal{fmt.Sprintf("%d", tick["USD"]): cs.usd})
 		t, _ := acc.run(c, r, sp, sc)
 		live := t.Live(convName)
 		r.check(live == cs.wantLive, "C14/valuation-table", cs.name, c.pos(sp.Pos()), "Convert "+liveStr(live), fmt.Sprintf("Convert is %s, expected %s", liveStr(live), liveStr(cs.wantLive)))
 	}
 	acc.report(c, r, "C14/valuation-table", sp)
-	// valuation arguments: amount = balance[i], from = rates[i], to = rates[pUSD]
-	for _, ci := range findCalls(sp, convName) {
+	// valuation arguments: amount = balance[i], from = rates[i], to = rates[pUSD] (in SnapshotPayouts or a helper split off from it)
+	nval := 0
+	for _, ci := range c.findCallsFam(sp, convName) {
+		nval++
 		a := ci.Common().Args
-		okA := strings.Contains(typePath(unwrapConv(a[1])), "Balances") || sliceHas(a[1], func(v ssa.Value) bool { return strings.HasSuffix(typePath(v), "BalancesPair.Balances") })
-		okF := valuePath(a[2]) == "rates[]" && valuePath(a[3]) == "rates[]"
-		usd := fmt.Sprintf("rates[%d]", tick["USD"])
-		okT := valuePath(a[4]) == usd && valuePath(a[5]) == usd
-		r.check(okA && okF && okT, "C14/valuation-table", "valuation converts balance[i] at rates[i] into pUSD at rates[pUSD]", c.ipos(ci), "", fmt.Sprintf("Convert arguments: amount from balances=%v, source rate/avg=%s/%s, destination rate/avg=%s/%s", okA, valuePath(a[2]), valuePath(a[3]), valuePath(a[4]), valuePath(a[5])))
+		okA := false
+		if u, ok := unwrapConv(a[1]).(*ssa.UnOp); ok {
+			if ia, ok := u.X.(*ssa.IndexAddr); ok {
+				for _, l := range c.originLeaves(ia.X, c.RSync) {
+					if strings.HasSuffix(typePath(l), "BalancesPair.Balances") {
+						okA = true
+					}
+				}
+				if strings.HasSuffix(typePath(ia.X), "BalancesPair.Balances") {
+					okA = true
+				}
+			}
+		}
+		lk := func(v ssa.Value) *ssa.Lookup {
+			if l, ok := v.(*ssa.Lookup); ok {
+				return l
+			}
+			return nil
+		}
+		l2, l3, l4, l5 := lk(a[2]), lk(a[3]), lk(a[4]), lk(a[5])
+		okF, okT := false, false
+		if l2 != nil && l3 != nil && l4 != nil && l5 != nil {
+			sameMap := unwrap(l2.X) == unwrap(l3.X) && unwrap(l3.X) == unwrap(l4.X) && unwrap(l4.X) == unwrap(l5.X)
+			okF = sameMap && l2.Index == l3.Index
+			if u, ok := unwrapConv(a[1]).(*ssa.UnOp); ok {
+				if ia, ok := u.X.(*ssa.IndexAddr); ok {
+					okF = okF && unwrapConv(ia.Index) == unwrapConv(l2.Index) // the balance and its rate are of the same ticker
+				}
+			}
+			k4, ok4 := l4.Index.(*ssa.Const)
+			k5, ok5 := l5.Index.(*ssa.Const)
+			okT = sameMap && ok4 && ok5 && k4.Int64() == tick["USD"] && k5.Int64() == tick["USD"]
+		}
+		r.check(okA && okF && okT, "C14/valuation-table", "valuation converts balance[i] at rates[i] into pUSD at rates[pUSD]", c.ipos(ci), "", fmt.Sprintf("Convert arguments: amount from the snapshot balances=%v, source rate and average = rates[i] of the same ticker=%v, destination rate and average = rates[pUSD]=%v", okA, okF, okT))
+	}
+	if nval == 0 {
+		r.viol("C14/valuation-table", "valuation call", c.pos(sp.Pos()), "no call to Convert in SnapshotPayouts or its helpers")
 	}
 
 	// SQL: SnapshotCurrent statement sequence
